@@ -24,6 +24,15 @@ theorem live_builtin_result {s s' : State} {r : BuiltinRun} (hr : BuiltinOk r) {
     have ⟨a, b, _, _⟩ := hn.2 k j ds[k] (by simp [hk, hkj]) (by simp [hk2])
     exact ⟨a, b⟩
 
+theorem goodT_noteAccess {s : State} (h : Inv s) {v : Val} (hv : Live s v) : GoodT s (noteAccess s v) := by
+  have hany : v.idxs.any s.isFreed = false := by
+    rw [List.any_eq_false]
+    intro j hj
+    have := (hv j ((mem_idxs_iff v j).mp hj)).2
+    simp [this]
+  unfold noteAccess
+  exact ⟨⟨inv_withUaf h (by simp [h.noUaf, hany]), Stable.of_eq rfl rfl⟩, rfl⟩
+
 theorem good_handleCall {s : State} (h : Inv s) (pid : Nat) (fnExists : Nat → Bool)
     (run : Nat → Option BuiltinRun) (hrun : ∀ id r, run id = some r → BuiltinOk r) :
     GoodT s (handleCall s pid fnExists run).1 := by
@@ -63,15 +72,17 @@ theorem good_handleCall {s : State} (h : Inv s) (pid : Nat) (fnExists : Nat → 
         split
         · exact sp1.1.trans sp2.1
         · rename_i r hr
-          have g12 := sp1.1.trans sp2.1
+          have gn := goodT_noteAccess sp2.1.inv (sp2.2 parameter rfl)
+          have g12 := (sp1.1.trans sp2.1).trans gn
+          have hlp : Live (noteAccess s2 parameter) parameter := (sp2.2 parameter rfl).stable gn.stable
           split
           · exact g12
           rename_i ds hds
-          have ⟨ga, ra, na⟩ := allocMany_spec ds s2 sp2.1.inv
-          cases ham : allocMany s2 ds with
+          have ⟨ga, ra, na⟩ := allocMany_spec ds (noteAccess s2 parameter) gn.inv
+          cases ham : allocMany (noteAccess s2 parameter) ds with
           | mk oi s3 =>
             rw [ham] at ga ra na
-            have g3 : GoodT s2 s3 := ⟨ga, ra.transit⟩
+            have g3 : GoodT (noteAccess s2 parameter) s3 := ⟨ga, ra.transit⟩
             cases oi with
             | none => exact g12.trans g3
             | some idxs =>
@@ -82,7 +93,7 @@ theorem good_handleCall {s : State} (h : Inv s) (pid : Nat) (fnExists : Nat → 
                 split
                 · exact g12.trans g3
                 · have hl : Live s3 value :=
-                    live_builtin_result (hrun bid r hr) hres ((sp2.2 parameter rfl).stable ga.stable) (na idxs rfl)
+                    live_builtin_result (hrun bid r hr) hres (hlp.stable ga.stable) (na idxs rfl)
                   exact g12.trans (g3.trans (goodT_push_bump ga.inv pid hl))
   · exact GoodT.refl h
 
